@@ -90,11 +90,14 @@ def r1(c, readers, n_logic):
         return
     m = repo.module(API)
     sites = 0
-    for q, fn in m.defs.items():
-        if not isinstance(fn, ast.FunctionDef):
+    for q, fn0 in m.defs.items():
+        if not isinstance(fn0, ast.FunctionDef):
             continue
-        builders = [x for x in calls_in(fn) if call_name(x).split(".")[-1] in BUILDERS and repo.enclosing_func(x) is fn]
-        mps = [x for x in calls_in(fn) if call_name(x).split(".")[-1] == "make_pre" and repo.enclosing_func(x) is fn]
+        # canonical form: a tail shared by the front ends (one helper doing make_diff -> make_pre -> patch -> strip) is read in each of them
+        fn = repo.func(API, q)
+        nested = {id(x) for d in ast.walk(fn) if isinstance(d, (ast.FunctionDef, ast.Lambda)) and d is not fn for x in ast.walk(d)}
+        builders = [x for x in calls_in(fn) if call_name(x).split(".")[-1] in BUILDERS and id(x) not in nested]
+        mps = [x for x in calls_in(fn) if call_name(x).split(".")[-1] == "make_pre" and id(x) not in nested]
         if not builders or not mps:
             continue
         pv = Provenance(fn)
